@@ -908,7 +908,7 @@ pub fn e2e_scenario(c: &E2eCase) -> (crate::e2e::Scenario, std::collections::BTr
         s.pause_ms = (gap * 1000.0).round() as u32;
         out.push(s);
     }
-    let sc = crate::e2e::Scenario { references: c.refs.iter().map(|r| Some(*r)).collect(), sends: out, df_filter: None, aircraft_filter: None, dedup_ms: 60, update_position: c.update_position, with_file: false, via_config: c.via_config, split: 0, long_table: false, cli_dup: false, history_expire: None, track: vec![] };
+    let sc = crate::e2e::Scenario { references: c.refs.iter().map(|r| Some(*r)).collect(), sends: out, df_filter: None, aircraft_filter: None, dedup_ms: 60, update_position: c.update_position, with_file: false, via_config: c.via_config, split: 0, long_table: false, cli_dup: false, history_expire: None, track: vec![], quiet: false };
     (sc, truth)
 }
 
